@@ -75,6 +75,7 @@ package dnsdata
 //@ extern net IP.To4
 //@ pure
 //@ ensures (result != nil) == uf.isv4ip(ip)
+//@ ensures result == nil || (len(result) == 4 && result == uf.ip4of(ip))
 
 // updatePrefixSet: the subnet's (128-bit) prefix length is recorded in the combined set and in the set of
 // the subnet's own address family, and in no other.
@@ -142,7 +143,7 @@ package dnsdata
 // Dom(name) | Loc(l) | Lmap(m) | Quoted(x). Separators are Bytes(NSEP). The assumed contracts of the
 // writers below say which token each call appends; the bodies of MarshalText are then verified to emit
 // the fields MarshalMap reads, in the order UnmarshalText expects.
-//@ ghostvar ntok int
+//@ ghostvar ntok nat
 //@ ghostvar tokK seq
 //@ ghostvar tokS (Array Int Str)
 //@ ghostvar tokB (Array Int Slice)
@@ -251,6 +252,26 @@ package dnsdata
 //@ ensures result == uf.lower(s)
 //@ extern bytes Buffer.Grow
 //@ pure
+// ---- C01: the head of every stored record (binary encoders at token level) ------------------------------------
+// value = BE16(type) marker [location] BE32(ttl) 8 zero bytes ...; marker: '=' / '*' (wildcard) without a location,
+// '>' / '+' (wildcard) followed by the two location bytes with one; a location is two bytes that are not both zero.
+//@ extern io Writer.Write
+//@ updates ntok, tokK, tokB
+//@ ensures ntok == old(ntok) + 1 && tokK == upd(old(tokK), old(ntok), 2) && tokB == upd(old(tokB), old(ntok), p)
+//@ spec tbe16(i int, v int) bool = tokK[i] == 11 && tokN[i] == v
+//@ spec tbe32(i int, v int) bool = tokK[i] == 12 && tokN[i] == v
+//@ spec tbyte1(i int, c int) bool = tokK[i] == 2 && len(tokB[i]) == 1 && tokB[i][0] == c
+//@ spec zeros8(i int) bool = tokK[i] == 2 && len(tokB[i]) == 8 && forall(j, 0, 8, tokB[i][j] == 0)
+//@ spec hasloc(loc Loc) bool = len(loc) == 2 && !(loc[0] == 0 && loc[1] == 0)
+//@ spec rrhead(i int, t int, ttl int, loc Loc, wild bool) bool = tbe16(i, t) && tbyte1(i + 1, ite(hasloc(loc), ite(wild, 43, 62), ite(wild, 42, 61))) && (hasloc(loc) ==> tbytes(i + 2, loc)) && tbe32(i + 2 + ite(hasloc(loc), 1, 0), ttl) && zeros8(i + 3 + ite(hasloc(loc), 1, 0))
+//@ func putrrhead
+//@ updates ntok, tokK, tokB, tokN
+//@ pure
+//@ requires w != nil
+//@ ensures[count] ntok == old(ntok) + 4 + ite(hasloc(loc), 1, 0)
+//@ ensures[head] rrhead(old(ntok), t, ttl, loc, iswildcard)
+//@ ensures[frame] forall(i, 0, old(ntok), tokK[i] == old(tokK)[i] && tokB[i] == old(tokB)[i] && tokN[i] == old(tokN)[i])
+
 //@ func putloc
 //@ trusted
 //@ updates ntok, tokK, tokB
@@ -365,3 +386,90 @@ package dnsdata
 //@ requires scanner != nil
 //@ before send#0 assert[whole-copy] len(newLine) == len(line) && seqeq(newLine, line)
 //@ before send#0 assert[private] fresh(newLine) && len(line) >= 2
+
+// ---- C01: MarshalMap of the simple record types, field by field (token level) --------------------------------
+// key = makedomainkey(owner, location); value = record head (type, marker, location, ttl) followed by the rdata
+// fields in wire order. Types: NS 2, CNAME 5, SOA 6, PTR 12, MX 15, SRV 33. NS, SOA, PTR, MX and SRV records are
+// never stored as wildcards.
+//@ func Rns1.MarshalMap
+//@ updates ntok, tokK, tokS, tokB, tokN
+//@ flag skip frame
+//@ ghostret vbuf int = v
+//@ requires r != nil && r.c != nil
+//@ ensures[key-v1] err == nil && !r.c.Features.UseV2Keys ==> traw(old(ntok), 8, r.lo) && traw(old(ntok) + 1, 9, uf.lower(r.dom))
+//@ ensures[key-v2] err == nil && r.c.Features.UseV2Keys ==> tlit(old(ntok), ResourceRecordsKeyMarker) && traw(old(ntok) + 1, 10, uf.lower(r.dom)) && traw(old(ntok) + 2, 8, r.lo)
+//@ ensures[head] err == nil ==> rrhead(old(ntok) + ite(r.c.Features.UseV2Keys, 3, 2), 2, r.ttl, r.lo, false)
+//@ ensures[rdata] err == nil ==> traw(old(ntok) + ite(r.c.Features.UseV2Keys, 3, 2) + (4 + ite(hasloc(r.lo), 1, 0)) + 0, 9, r.ns)
+//@ ensures[count] err == nil ==> ntok == old(ntok) + ite(r.c.Features.UseV2Keys, 3, 2) + (4 + ite(hasloc(r.lo), 1, 0)) + 1
+//@ ensures[one] err == nil ==> len(result0) == 1 && result0[0].Value == uf.bufbytes(vbuf)
+//@ func Rcname.MarshalMap
+//@ updates ntok, tokK, tokS, tokB, tokN
+//@ flag skip frame
+//@ ghostret vbuf int = v
+//@ requires r != nil && r.c != nil
+//@ ensures[key-v1] err == nil && !r.c.Features.UseV2Keys ==> traw(old(ntok), 8, r.lo) && traw(old(ntok) + 1, 9, uf.lower(r.dom))
+//@ ensures[key-v2] err == nil && r.c.Features.UseV2Keys ==> tlit(old(ntok), ResourceRecordsKeyMarker) && traw(old(ntok) + 1, 10, uf.lower(r.dom)) && traw(old(ntok) + 2, 8, r.lo)
+//@ ensures[head] err == nil ==> rrhead(old(ntok) + ite(r.c.Features.UseV2Keys, 3, 2), 5, r.ttl, r.lo, r.iswildcard)
+//@ ensures[rdata] err == nil ==> traw(old(ntok) + ite(r.c.Features.UseV2Keys, 3, 2) + (4 + ite(hasloc(r.lo), 1, 0)) + 0, 9, r.cname)
+//@ ensures[count] err == nil ==> ntok == old(ntok) + ite(r.c.Features.UseV2Keys, 3, 2) + (4 + ite(hasloc(r.lo), 1, 0)) + 1
+//@ ensures[one] err == nil ==> len(result0) == 1 && result0[0].Value == uf.bufbytes(vbuf)
+//@ func Rptr.MarshalMap
+//@ updates ntok, tokK, tokS, tokB, tokN
+//@ flag skip frame
+//@ ghostret vbuf int = v
+//@ requires r != nil && r.c != nil
+//@ ensures[key-v1] err == nil && !r.c.Features.UseV2Keys ==> traw(old(ntok), 8, r.lo) && traw(old(ntok) + 1, 9, uf.lower(r.dom))
+//@ ensures[key-v2] err == nil && r.c.Features.UseV2Keys ==> tlit(old(ntok), ResourceRecordsKeyMarker) && traw(old(ntok) + 1, 10, uf.lower(r.dom)) && traw(old(ntok) + 2, 8, r.lo)
+//@ ensures[head] err == nil ==> rrhead(old(ntok) + ite(r.c.Features.UseV2Keys, 3, 2), 12, r.ttl, r.lo, false)
+//@ ensures[rdata] err == nil ==> traw(old(ntok) + ite(r.c.Features.UseV2Keys, 3, 2) + (4 + ite(hasloc(r.lo), 1, 0)) + 0, 9, r.host)
+//@ ensures[count] err == nil ==> ntok == old(ntok) + ite(r.c.Features.UseV2Keys, 3, 2) + (4 + ite(hasloc(r.lo), 1, 0)) + 1
+//@ ensures[one] err == nil ==> len(result0) == 1 && result0[0].Value == uf.bufbytes(vbuf)
+//@ func Rmx1.MarshalMap
+//@ updates ntok, tokK, tokS, tokB, tokN
+//@ flag skip frame
+//@ ghostret vbuf int = v
+//@ requires r != nil && r.c != nil
+//@ ensures[key-v1] err == nil && !r.c.Features.UseV2Keys ==> traw(old(ntok), 8, r.lo) && traw(old(ntok) + 1, 9, uf.lower(r.dom))
+//@ ensures[key-v2] err == nil && r.c.Features.UseV2Keys ==> tlit(old(ntok), ResourceRecordsKeyMarker) && traw(old(ntok) + 1, 10, uf.lower(r.dom)) && traw(old(ntok) + 2, 8, r.lo)
+//@ ensures[head] err == nil ==> rrhead(old(ntok) + ite(r.c.Features.UseV2Keys, 3, 2), 15, r.ttl, r.lo, false)
+//@ ensures[rdata] err == nil ==> tbe16(old(ntok) + ite(r.c.Features.UseV2Keys, 3, 2) + (4 + ite(hasloc(r.lo), 1, 0)) + 0, r.dist % 65536) && traw(old(ntok) + ite(r.c.Features.UseV2Keys, 3, 2) + (4 + ite(hasloc(r.lo), 1, 0)) + 1, 9, r.mx)
+//@ ensures[count] err == nil ==> ntok == old(ntok) + ite(r.c.Features.UseV2Keys, 3, 2) + (4 + ite(hasloc(r.lo), 1, 0)) + 2
+//@ ensures[one] err == nil ==> len(result0) == 1 && result0[0].Value == uf.bufbytes(vbuf)
+//@ func Rsrv1.MarshalMap
+//@ updates ntok, tokK, tokS, tokB, tokN
+//@ flag skip frame
+//@ ghostret vbuf int = v
+//@ requires r != nil && r.c != nil
+//@ ensures[key-v1] err == nil && !r.c.Features.UseV2Keys ==> traw(old(ntok), 8, r.lo) && traw(old(ntok) + 1, 9, uf.lower(r.dom))
+//@ ensures[key-v2] err == nil && r.c.Features.UseV2Keys ==> tlit(old(ntok), ResourceRecordsKeyMarker) && traw(old(ntok) + 1, 10, uf.lower(r.dom)) && traw(old(ntok) + 2, 8, r.lo)
+//@ ensures[head] err == nil ==> rrhead(old(ntok) + ite(r.c.Features.UseV2Keys, 3, 2), 33, r.ttl, r.lo, false)
+//@ ensures[rdata] err == nil ==> tbe16(old(ntok) + ite(r.c.Features.UseV2Keys, 3, 2) + (4 + ite(hasloc(r.lo), 1, 0)) + 0, r.pri) && tbe16(old(ntok) + ite(r.c.Features.UseV2Keys, 3, 2) + (4 + ite(hasloc(r.lo), 1, 0)) + 1, r.weight) && tbe16(old(ntok) + ite(r.c.Features.UseV2Keys, 3, 2) + (4 + ite(hasloc(r.lo), 1, 0)) + 2, r.port) && traw(old(ntok) + ite(r.c.Features.UseV2Keys, 3, 2) + (4 + ite(hasloc(r.lo), 1, 0)) + 3, 9, r.srv)
+//@ ensures[count] err == nil ==> ntok == old(ntok) + ite(r.c.Features.UseV2Keys, 3, 2) + (4 + ite(hasloc(r.lo), 1, 0)) + 4
+//@ ensures[one] err == nil ==> len(result0) == 1 && result0[0].Value == uf.bufbytes(vbuf)
+//@ func Rsoa.MarshalMap
+//@ updates ntok, tokK, tokS, tokB, tokN
+//@ flag skip frame
+//@ ghostret vbuf int = v
+//@ requires r != nil && r.c != nil
+//@ ensures[key-v1] err == nil && !r.c.Features.UseV2Keys ==> traw(old(ntok), 8, r.lo) && traw(old(ntok) + 1, 9, uf.lower(r.dom))
+//@ ensures[key-v2] err == nil && r.c.Features.UseV2Keys ==> tlit(old(ntok), ResourceRecordsKeyMarker) && traw(old(ntok) + 1, 10, uf.lower(r.dom)) && traw(old(ntok) + 2, 8, r.lo)
+//@ ensures[head] err == nil ==> rrhead(old(ntok) + ite(r.c.Features.UseV2Keys, 3, 2), 6, r.ttl, r.lo, false)
+//@ ensures[rdata] err == nil ==> traw(old(ntok) + ite(r.c.Features.UseV2Keys, 3, 2) + (4 + ite(hasloc(r.lo), 1, 0)) + 0, 9, r.ns) && traw(old(ntok) + ite(r.c.Features.UseV2Keys, 3, 2) + (4 + ite(hasloc(r.lo), 1, 0)) + 1, 9, r.adm) && tbe32(old(ntok) + ite(r.c.Features.UseV2Keys, 3, 2) + (4 + ite(hasloc(r.lo), 1, 0)) + 2, r.ser) && tbe32(old(ntok) + ite(r.c.Features.UseV2Keys, 3, 2) + (4 + ite(hasloc(r.lo), 1, 0)) + 3, r.ref) && tbe32(old(ntok) + ite(r.c.Features.UseV2Keys, 3, 2) + (4 + ite(hasloc(r.lo), 1, 0)) + 4, r.ret) && tbe32(old(ntok) + ite(r.c.Features.UseV2Keys, 3, 2) + (4 + ite(hasloc(r.lo), 1, 0)) + 5, r.exp) && tbe32(old(ntok) + ite(r.c.Features.UseV2Keys, 3, 2) + (4 + ite(hasloc(r.lo), 1, 0)) + 6, r.min)
+//@ ensures[count] err == nil ==> ntok == old(ntok) + ite(r.c.Features.UseV2Keys, 3, 2) + (4 + ite(hasloc(r.lo), 1, 0)) + 7
+//@ ensures[one] err == nil ==> len(result0) == 1 && result0[0].Value == uf.bufbytes(vbuf)
+
+// Raddr: type A (1) with the 4-byte address when the address is IPv4 (or IPv4-mapped), type AAAA (28) with the 16
+// bytes otherwise; the weight (BE32) comes before the address; no address, no record.
+//@ ufun ip4of(slice) slice
+//@ func Raddr.MarshalMap
+//@ updates ntok, tokK, tokS, tokB, tokN
+//@ flag skip frame
+//@ requires r != nil && r.c != nil
+//@ ensures[none] r.ip == nil ==> err == nil && len(result0) == 0 && ntok == old(ntok)
+//@ ensures[key-v1] err == nil && r.ip != nil && !r.c.Features.UseV2Keys ==> traw(old(ntok), 8, r.lo) && traw(old(ntok) + 1, 9, uf.lower(r.dom))
+//@ ensures[key-v2] err == nil && r.ip != nil && r.c.Features.UseV2Keys ==> tlit(old(ntok), ResourceRecordsKeyMarker) && traw(old(ntok) + 1, 10, uf.lower(r.dom)) && traw(old(ntok) + 2, 8, r.lo)
+//@ ensures[head] err == nil && r.ip != nil ==> rrhead(old(ntok) + ite(r.c.Features.UseV2Keys, 3, 2), 1, r.ttl, r.lo, r.iswildcard) || rrhead(old(ntok) + ite(r.c.Features.UseV2Keys, 3, 2), 28, r.ttl, r.lo, r.iswildcard)
+//@ ensures[weight] err == nil && r.ip != nil ==> tbe32(old(ntok) + ite(r.c.Features.UseV2Keys, 3, 2) + (4 + ite(hasloc(r.lo), 1, 0)), r.weight)
+//@ ensures[addr4] err == nil && r.ip != nil && tbe16(old(ntok) + ite(r.c.Features.UseV2Keys, 3, 2), 1) ==> tokK[old(ntok) + ite(r.c.Features.UseV2Keys, 3, 2) + (4 + ite(hasloc(r.lo), 1, 0)) + 1] == 2 && len(tokB[old(ntok) + ite(r.c.Features.UseV2Keys, 3, 2) + (4 + ite(hasloc(r.lo), 1, 0)) + 1]) == 4 && tokB[old(ntok) + ite(r.c.Features.UseV2Keys, 3, 2) + (4 + ite(hasloc(r.lo), 1, 0)) + 1] == uf.ip4of(r.ip)
+//@ ensures[addr6] err == nil && r.ip != nil && tbe16(old(ntok) + ite(r.c.Features.UseV2Keys, 3, 2), 28) ==> tbytes(old(ntok) + ite(r.c.Features.UseV2Keys, 3, 2) + (4 + ite(hasloc(r.lo), 1, 0)) + 1, r.ip)
+//@ ensures[count] err == nil && r.ip != nil ==> ntok == old(ntok) + ite(r.c.Features.UseV2Keys, 3, 2) + (4 + ite(hasloc(r.lo), 1, 0)) + 2 && len(result0) == 1
